@@ -208,7 +208,11 @@ Section Pickle.
          (p_graphs p) (p_qkeys p)).
 
   (* ------------------------------------------------------------- __setstate__ *)
-  Definition setstate (w : world) (p : pstate) : machine :=
+  (* [seen i]: the state attribute of model i as the machine's __setstate__ sees it while the
+     object graph is being rebuilt.  When unpickling ENTERS through the machine every model is
+     complete by then; when it enters through a model (pickle.dumps(model): model -> trigger
+     partial -> machine -> models) that model is still an empty shell (no attributes). *)
+  Definition setstate_gen (seen : ident -> option S) (p : pstate) : machine :=
     match effective_hooks (p_cls p) with
     | HDefault =>
         mkM (p_cls p) (p_cfg p) (p_qmodel p) (p_models p) (p_mctx p) (p_cmap p) (p_graphs p) (p_qkeys p)
@@ -221,19 +225,31 @@ Section Pickle.
         let store := match p_store p with Some s => s | None => [] end in
         mkM (p_cls p) (p_cfg p) (p_qmodel p) (p_models p) (p_mctx p)
             (build fst snd store)
-            (build (fun i => i) (fun i => render (p_cfg p) (state_of w i)) (p_models p))
+            (build (fun i => i) (fun i => render (p_cfg p) (seen i)) (p_models p))
             (p_qkeys p)
     | HGraph =>
         mkM (p_cls p) (p_cfg p) (p_qmodel p) (p_models p) (p_mctx p) (p_cmap p)
-            (build (fun i => i) (fun i => render (p_cfg p) (state_of w i)) (p_models p))
+            (build (fun i => i) (fun i => render (p_cfg p) (seen i)) (p_models p))
             (p_qkeys p)
     end.
+  Definition setstate (w : world) (p : pstate) : machine := setstate_gen (state_of w) p.
 
   (* pickle.loads(pickle.dumps(machine)) *)
   Definition snapshot (rm rl : ident -> ident) (w : world) (m : machine) : option (world * machine) :=
     match getstate w m with
     | None => None
     | Some p => let wp := transport rm rl w p in Some (fst wp, setstate (fst wp) (snd wp))
+    end.
+
+  (* pickle.loads(pickle.dumps(model j)), the machine taken from the unpickled model: the same object
+     graph, but the machine is restored while the copy of j is an empty shell *)
+  Definition snapshot_via (j : ident) (rm rl : ident -> ident) (w : world) (m : machine)
+    : option (world * machine) :=
+    match getstate w m with
+    | None => None
+    | Some p =>
+        let wp := transport rm rl w p in
+        Some (fst wp, setstate_gen (fun i => if Nat.eqb i (rm j) then None else state_of (fst wp) i) (snd wp))
     end.
 
   (* ------------------------------------------------------------- what an event on a model finds *)
@@ -350,6 +366,8 @@ Arguments tab_step {_ _ _}.
 Arguments getstate {_ _ _}.
 Arguments transport {_ _ _}.
 Arguments setstate {_ _ _}.
+Arguments setstate_gen {_ _ _}.
+Arguments snapshot_via {_ _ _}.
 Arguments snapshot {_ _ _}.
 Arguments resolve {_ _ _}.
 Arguments resolve_model {_ _ _}.
